@@ -1249,6 +1249,21 @@ def source_validate(ctx, g, r):
     '''after the framing and client studies (their oracles ARE the search for a
     failing input the tie needs when the translator refuses the source or the
     equality proofs break): the generated definitions against the real code'''
+    # the encoders on the real send functions: the oracle (what is written, in
+    # order, is the big-endian length of the payload, then the payload) is evaluated
+    # whether or not the translator accepts the source
+    sent = ctx.harness('drive_framegen.py', {'sizes': [0, 40, 300, 66000]})['cases']
+    for o in sent:
+        w = bytes.fromhex(o['written'][0]) if o['written'] else b''
+        ok = o['exc'] is None and o['ndumped'] == 1 \
+            and w[:4] == struct.pack('>I', o['payload_len']) and o['written_len'][0] == 4 + o['payload_len'] \
+            and (o['payload'] is None or w[4:] == bytes.fromhex(o['payload']))
+        if not ok:
+            ctx.violation('sender-frame', {'fn': o['fn']},
+                          '%s writes %s... (%s bytes in %d pieces, exc %s) for a payload of %d bytes: not the 4-byte '
+                          'big-endian length followed by the payload' % (o['fn'], w[:8].hex(), o['written_len'],
+                                                                        o['pieces'], o['exc'], o['payload_len']),
+                          {'source': 'oracle', 'theorem': 'C14_send_is_source / C14_wellformed', 'observed': o})
     found = ctx.nviol > 0
     bad = None
     nval = 0
@@ -1300,8 +1315,6 @@ def source_validate(ctx, g, r):
             sel = sel[::max(1, len(sel) // 240)]
             gex = [cexprs[i].replace('(receive_n ', '(greceive_n ') for i in sel]
             batched = ['[' + '; '.join(gex[i:i + 60]) + ']' for i in range(0, len(gex), 60)]
-            sizes = [0, 40, 300, 66000]
-            sent = ctx.harness('drive_framegen.py', {'sizes': sizes})['cases']
             sex = []
             for o in sent:
                 f = 'FrameGen.message_send' if o['fn'] == 'message.send' else 'FrameGen.worker_send'
@@ -1324,9 +1337,9 @@ def source_validate(ctx, g, r):
             for o, m in zip(sent, sres):
                 nval += 1
                 if o['payload'] is not None:
-                    ok = o['exc'] is None and o['pieces'] == 1 and list(bytes.fromhex(o['written'][0])) == list(m)
+                    ok = o['exc'] is None and list(bytes.fromhex(o['written'][0])) == list(m)
                 else:
-                    ok = o['exc'] is None and o['pieces'] == 1 and \
+                    ok = o['exc'] is None and \
                         (list(bytes.fromhex(o['written'][0])), o['written_len'][0]) == (list(m[0]), m[1])
                 if not ok and bad is None:
                     bad = {'what': o['fn'], 'payload_len': o['payload_len'], 'python': o, 'generated': m}
